@@ -126,7 +126,7 @@ CHECKS = {
              "StdioTransport on a FakeProcess, plus seeded scenarios with random latencies, instants and a second cancellation. Oracle: exit "
              "within 2 s + modelled signal latencies of virtual time, child dead and reaped at quiescence, no task left, no fabricated result, "
              "unstartable command raises on entry.",
-        note="Trusts: the FakeProcess model of asyncio's subprocess transport (handle released iff child dead/closed; SIGKILL always kills); real /proc and fd tables are not observed.",
+        note="Trusts: the FakeProcess model of asyncio's subprocess transport (stdout read end released when the transport saw EOF - never while paused above 2 x 64 KiB unread - or on Process.aclose(); SIGKILL always kills); real /proc and fd tables are not observed by the check (one finding was confirmed on a real child by hand).",
         technique=TECH + "; systematic fault enumeration (child behaviour x exit path x moment) + seeded crash/cancel points"),
     "C18": dict(
         level="exploration", ref="DESIGN.md section 5 C18",
@@ -172,7 +172,7 @@ EXTRA = {
     "C13": " Also: counter-proposal handshakes, legacy per-request streams, a saturated outgoing queue with a > 64 KiB frame in flight when the batch is rejected. A notification side stream nobody reads, filled past its 100 slots.",
     "C14": " Also: params that already carry a progress token, the token found on the wire, and one token shared by a second request. The outgoing side stalling while the cancellation is noticed; callbacks failing with TimeoutError / OSError / the library's CancelledError.",
     "C15": " Also through MCPClient/connect_to_server over the Transport classes; > 100 notifications per session; event-before-202 on the SSE carrier; slow notification transit with a lifecycle-enforcing server; untyped SSE events behind data-less keep-alives. A server greeting at connection time (stdio vs legacy SSE, same chunk as the announcement); a session-keeping Streamable HTTP server assigning the id only with the InitializeResult.",
-    "C16": " Entry points include stdio_client_with_initialize; several conversations over one StdioClient object. A child bursting > 100 messages and exiting by itself; the child's state at the very instant of exit when it dies within the grace periods.",
+    "C16": " Entry points include stdio_client_with_initialize; several conversations over one StdioClient object. A child bursting > 100 messages and exiting by itself; the child's state at the very instant of exit when it dies within the grace periods; floods of 8-30 KiB lines up to what pipe + reader buffers hold, with the open-descriptor clause judged on the transport's EOF/close model.",
     "C18": " Runs on raw streams and on the pair returned by stdio_client() over a FakeProcess; ids include int/digit-string twins and falsy ids. Callers with (never fired) tokens; an in-phase, in-order regime that must be loss-free (own signature, not covered by F-C18-1); all answers in one flush with pipe reads coalescing several writes.",
     "C19": " Initialize is also sent with unsupported/malformed versions and with a session id.",
     "C20": " Also: repeat loads of one unchanged file, unknown names at any position, the default inherited environment compared with the host environment, which changes between launches. The stderr disposition of every spawn with a child that writes more than a pipe holds before answering; configured quiet log levels.",
